@@ -10,7 +10,7 @@ use crate::Ctx;
 
 /// (stage text, fields it may add or overwrite; None = "only removes")
 fn stateless_stage(r: &mut Rng) -> (String, Option<Vec<String>>) {
-    match r.below(9) {
+    match r.below(10) {
         0 | 1 => (format!("where {}", gen::bool_expr(r, 2)), Some(vec![])),
         2 | 3 => {
             let name = r.pick(&["r", "v", "y", "n"]).to_string();
@@ -30,6 +30,12 @@ fn stateless_stage(r: &mut Rng) -> (String, Option<Vec<String>>) {
             Some(vec!["took".into()]),
         ),
         7 => ("split(msg) on \" \" as parts".to_string(), Some(vec!["parts".into()])),
+        8 => {
+            // timeslice on a parsed date: documents carry out-of-order timestamps in `ts`
+            let (dur, name) = (*r.pick(&["5m", "1h", "1d", "30s", "1m30s"]), *r.pick(&["", " as slot"]));
+            let col = if name.is_empty() { "_timeslice" } else { "slot" };
+            (format!("timeslice(parseDate(ts)) {}{}", dur, name), Some(vec![col.into()]))
+        }
         _ => ("split(s) on \",\"".to_string(), Some(vec!["s".into()])),
     }
 }
@@ -53,8 +59,10 @@ pub fn check(ctx: &mut Ctx) {
         let q_prefix = format!("{} | {}", filter, stages[..stages.len() - 1].join(" | "));
         let cfg = gen::DocCfg { key_domain: 3, numeric_only: false };
         let (na, nb) = (r.below(10), r.below(10));
-        let a = with_ids(&ensure_nl(gen::json_input(&mut r, na, &cfg, 8)), 0);
-        let b = with_ids(&gen::json_input(&mut r, nb, &cfg, 8), 1000);
+        let a0 = with_ids(&ensure_nl(gen::json_input(&mut r, na, &cfg, 8)), 0);
+        let b0 = with_ids(&gen::json_input(&mut r, nb, &cfg, 8), 1000);
+        let a = with_ts(&mut r, &a0);
+        let b = with_ts(&mut r, &b0);
         let mut ab = a.clone();
         ab.extend(&b);
         let key = ckey(&q, &ab);
@@ -170,4 +178,21 @@ fn ensure_nl(mut v: Vec<u8>) -> Vec<u8> {
         v.push(b'\n');
     }
     v
+}
+
+
+/// add a `ts` member with a timestamp that is NOT monotonic across lines (minutes and days jump
+/// back and forth) to every JSON object line
+fn with_ts(r: &mut Rng, input: &[u8]) -> Vec<u8> {
+    let mut out = vec![];
+    for line in input.split_inclusive(|b| *b == b'\n') {
+        if line.starts_with(b"{\"id\":") {
+            let ts = format!("2021-0{}-{:02}T{:02}:{:02}:{:02}Z", 1 + r.below(2), 1 + r.below(3), 10 + r.below(4), r.below(60), r.below(60));
+            out.extend(format!("{{\"ts\":\"{}\",", ts).into_bytes());
+            out.extend(&line[1..]);
+        } else {
+            out.extend(line);
+        }
+    }
+    out
 }
